@@ -84,6 +84,8 @@ def _same(value, default):
 
 
 def _npint(v):
+    if type(v) is bool:
+        return np.bool_(v)  # flags that come out of numpy comparisons (header["node_offset"] == 1)
     if type(v) is int:
         return np.int64(v)
     if type(v) in (tuple, list) and v and all(type(x) is int for x in v):
